@@ -53,7 +53,7 @@ def rgb_to_raw(rgb_color):
     r, g, b = [rgb_color[i] / 100.0 for i in range(0, 3)]
     h, s, v = colorsys.rgb_to_hsv(r, g, b)
     make_raw = lambda x: round(max(0, min((x * 65535.0), 65535)))
-    return [make_raw(h), make_raw(s), make_raw(v), round(rgb_color[3])]
+    return [make_raw(h), make_raw(s), make_raw(v), rgb_color[3]]
 
 @noneable
 def rgb_to_logical(rgb_color):
